@@ -21,6 +21,11 @@ BASE = ("qkeras from /repo working tree on tf_keras 2.21 (TF_USE_LEGACY_KERAS=1)
 TECH = "deterministic simulation with fault injection: "
 
 CHECKS = {
+    "C15": ("T", "exploration",
+            "The folded conv+BN layers carry a step clock (_iteration) and EMA state; inference equality is checked at arbitrary instants of a simulated training history: before the first step, inside the pre-freeze window, exactly at ema_freeze_delay, just past it, after clock jumps (checkpoint loads), after BN statistic faults (tiny variance, zero/negative gamma, large mean), after restarts (json/clone/h5) and after conversion from a stock conv+BN model. At every probe the model must equal a stock Keras model whose folded layers are replaced by conv layers holding [q(kernel*gamma/sqrt(var+eps)), q((bias-mean)*gamma/sqrt(var+eps)+beta)] computed by the harness from the current parameters, and the probe must change no variable (clock, moving statistics, weights); unfold_model and model_quantize(enable_bn_folding) must preserve predictions. Sampling, not proof.",
+            BASE + "training calls are forward passes with training=True (no optimizer); probes whose folded values sit within 2e-6 (relative) of a rounding breakpoint are not judged; conversion is compared with the source within the error of 16-bit weights and then by the exact per-layer oracle.",
+            TECH + "virtual step clock with jumps and statistic faults driving real folded layers; reference model rebuilt from current parameters at every probe",
+            "4 C15"),
     "C13": ("M", "exploration",
             "Restart of a whole model with real I/O: generated quantized models over every layer class of the custom-object table are rebuilt from JSON, the library clone, HDF5 on a scratch path, HDF5 through a simulated file object under h5py's file-object driver, and a weights file, at arbitrary points of a history (weight perturbations, an export, a completed noise schedule that left variable-backed knobs, compile); predictions must be bit-identical and layers must report the same quantizers, with no custom objects. Disk faults (ENOSPC/EIO at the n-th write, short writes, crash with only flushed bytes surviving) are injected into model.save: the live model must stay untouched and a subsequent complete save must round-trip. Sampling, not proof.",
             BASE + "crash granularity = write/flush calls h5py issues on the file object; the content of a torn file is counted, not judged (the property does not say what a truncated HDF5 must do); QConv2DTranspose excluded (cannot run on TF 2.21).",
